@@ -5,6 +5,7 @@ import (
 	"flag"
 	"fmt"
 	"os"
+	"os/exec"
 	"path/filepath"
 	"sort"
 	"strconv"
@@ -208,8 +209,15 @@ func cmdCheck(args []string) int {
 		needTwo = true
 	}
 	smtDir := filepath.Join(verifRoot, "smt", pf.ID)
+	scratch := os.Getenv("GOVC_REPO") != ""
+	if scratch {
+		smtDir = filepath.Join(repoRoot, ".govc-smt")
+	}
 	os.RemoveAll(smtDir)
-	run := &checkRun{pf: &pf, tier: *tier, seed: seed}
+	run := &checkRun{pf: &pf, tier: *tier, seed: seed, scratch: scratch}
+	if *tier == "thorough" && !scratch {
+		run.mutation = runMutationCorpus(pf.ID, seed)
+	}
 	want := map[string]bool{}
 	for _, f := range pf.Functions {
 		want[f] = true
@@ -257,11 +265,13 @@ func cmdCheck(args []string) int {
 }
 
 type checkRun struct {
-	pf      *PropFile
-	tier    string
-	seed    int
-	funcs   []*FuncResult
-	lockset []*Obligation
+	scratch  bool            // running on a scratch copy (mutation corpus): no evidence, no replays
+	mutation *mutationReport // thorough tier: result of the must-fail corpus
+	pf       *PropFile
+	tier     string
+	seed     int
+	funcs    []*FuncResult
+	lockset  []*Obligation
 }
 
 func (r *checkRun) report(wall float64) int {
@@ -316,7 +326,13 @@ func (r *checkRun) report(wall float64) int {
 			continue
 		}
 		violations++
-		path, reproduced := tryReplay(replayDir, o, r)
+		var path string
+		var reproduced bool
+		if r.scratch {
+			path, reproduced = "-", false
+		} else {
+			path, reproduced = tryReplay(replayDir, o, r)
+		}
 		suffix := ""
 		if !reproduced {
 			suffix = " no-failing-input-found"
@@ -349,6 +365,9 @@ func writeReplayStub(dir string, o *Obligation, why string) string {
 }
 
 func (r *checkRun) writeEvidence(wall float64, explanation string) {
+	if r.scratch {
+		return
+	}
 	ev := map[string]any{
 		"property_id": r.pf.ID, "tier": r.tier, "seed": r.seed, "level": "other",
 		"coverage": map[string]any{"explanation": explanation}, "wall_s": wall, "violations": 0,
@@ -444,6 +463,12 @@ func (r *checkRun) writeEvidenceFull(wall float64, all []*Obligation, proofObls,
 		level = "other"
 		cov["explanation"] = fmt.Sprintf("%d of %d claimed obligations discharged, %d functions undecided (missing or outside the verifier's subset), %d failed obligations (%d of them known findings)", discharged, claimedObls, undecided, len(failed), knownFailed)
 	}
+	if r.scratch {
+		return
+	}
+	if r.mutation != nil {
+		cov["mutation_corpus"] = r.mutation
+	}
 	var kf []string
 	for _, k := range known {
 		inAlso := false
@@ -462,4 +487,125 @@ func (r *checkRun) writeEvidenceFull(wall float64, all []*Obligation, proofObls,
 		"assumptions": keys(assume), "wall_s": wall, "violations": violations,
 	}
 	writeJSON(filepath.Join(verifRoot, "evidence", r.pf.ID+".json"), ev)
+}
+
+// ---------------------------------------------------------------- thorough tier: must-fail corpus
+
+type mutantResult struct {
+	Patch   string `json:"patch"`
+	Outcome string `json:"outcome"` // killed | survived | quiet (benign, as expected) | false-alarm | skipped
+	Detail  string `json:"detail,omitempty"`
+}
+
+type mutationReport struct {
+	Explanation string         `json:"explanation"`
+	Total       int            `json:"total"`
+	Killed      int            `json:"killed"`
+	Survived    int            `json:"survived"`
+	Results     []mutantResult `json:"results"`
+}
+
+// runMutationCorpus applies every committed change of /verif/mutants/<id> and /verif/seeded/<id>
+// (each breaks the property while compiling and passing the repository's tests) to a scratch copy
+// of /repo's working tree and runs this property's quick check on the copy in a sub-process: the
+// check must report a violation (a change marked BENIGN must stay quiet). It measures whether the
+// obligations still bite; a survivor is reported, it is not a violation of the property by /repo.
+func runMutationCorpus(id string, seed int) *mutationReport {
+	rep := &mutationReport{Explanation: "each listed change was applied to a scratch copy of /repo's working tree and this property's quick check was run on the copy; 'killed' = the check reported a violation"}
+	var patches []string
+	m1, _ := filepath.Glob(filepath.Join(verifRoot, "mutants", id, "*.patch"))
+	m2, _ := filepath.Glob(filepath.Join(verifRoot, "seeded", id, "*", "patch.diff"))
+	patches = append(append(patches, m1...), m2...)
+	sort.Strings(patches)
+	if len(patches) == 0 {
+		return rep
+	}
+	base := "/dev/shm"
+	if st, err := os.Stat(base); err != nil || !st.IsDir() {
+		base = os.TempDir()
+	}
+	scratch, err := os.MkdirTemp(base, "govc-mut-"+id+"-")
+	if err != nil {
+		rep.Explanation += "; scratch directory unavailable: " + err.Error()
+		return rep
+	}
+	defer os.RemoveAll(scratch)
+	if out, err := exec.Command("rsync", "-a", "--exclude", ".git", "/repo/", scratch+"/").CombinedOutput(); err != nil {
+		rep.Explanation += "; copy failed: " + err.Error() + " " + string(out)
+		return rep
+	}
+	self, _ := os.Executable()
+	for _, p := range patches {
+		rel, _ := filepath.Rel(verifRoot, p)
+		res := mutantResult{Patch: rel}
+		benign := false
+		if _, err := os.Stat(filepath.Join(filepath.Dir(p), "BENIGN")); err == nil {
+			benign = true
+		}
+		if out, err := runIn(scratch, "git", "apply", "--unsafe-paths", "-p1", p); err != nil {
+			res.Outcome, res.Detail = "skipped", "does not apply: "+firstLine(out)
+			rep.Results = append(rep.Results, res)
+			continue
+		}
+		cmd := exec.Command(self, "check", "--property", id, "--tier", "quick")
+		cmd.Dir = verifRoot
+		cmd.Env = append(os.Environ(), "GOVC_REPO="+scratch, "VERIF_TIER=quick", fmt.Sprintf("VERIF_SEED=%d", seed))
+		out, _ := cmd.CombinedOutput()
+		code := cmd.ProcessState.ExitCode()
+		first := ""
+		for _, l := range strings.Split(string(out), "\n") {
+			if strings.HasPrefix(l, "VIOLATION") {
+				if i := strings.Index(l, "obligation="); i >= 0 {
+					first = l[i+len("obligation="):]
+				}
+				break
+			}
+		}
+		switch {
+		case benign && code == 0:
+			res.Outcome = "quiet"
+		case benign:
+			res.Outcome, res.Detail = "false-alarm", first
+		case code == 1:
+			res.Outcome, res.Detail = "killed", first
+			rep.Killed++
+		default:
+			res.Outcome, res.Detail = "survived", fmt.Sprintf("exit %d: %s", code, lastLine(string(out)))
+			rep.Survived++
+		}
+		if !benign {
+			rep.Total++
+		}
+		rep.Results = append(rep.Results, res)
+		if out, err := runIn(scratch, "git", "apply", "--unsafe-paths", "-R", "-p1", p); err != nil {
+			// cannot restore: start from a fresh copy
+			_ = out
+			exec.Command("rsync", "-a", "--delete", "--exclude", ".git", "/repo/", scratch+"/").Run()
+		}
+		fmt.Printf("MUTANT %s %s %s\n", res.Outcome, rel, res.Detail)
+	}
+	return rep
+}
+
+func runIn(dir, name string, args ...string) (string, error) {
+	c := exec.Command(name, args...)
+	c.Dir = dir
+	out, err := c.CombinedOutput()
+	return string(out), err
+}
+
+func firstLine(s string) string {
+	s = strings.TrimSpace(s)
+	if i := strings.Index(s, "\n"); i >= 0 {
+		return s[:i]
+	}
+	return s
+}
+
+func lastLine(s string) string {
+	s = strings.TrimSpace(s)
+	if i := strings.LastIndex(s, "\n"); i >= 0 {
+		return s[i+1:]
+	}
+	return s
 }
